@@ -14,6 +14,16 @@ static long g_cur_run = -1;
 static int g_hang_seconds = 20;
 long g_sub_index = -1;	// position inside an enumerating operation (reported when the process dies)
 
+#ifdef VSIM_COV
+extern "C" int __llvm_profile_write_file(void);
+#endif
+static void sim_exit(int code)
+{
+#ifdef VSIM_COV
+    if (__llvm_profile_write_file() != 0) fprintf(stderr, "profile write failed: %s\n", strerror(errno));	// coverage build (bin/build cov): _exit would lose the counters
+#endif
+    _exit(code);
+}
 static void on_signal(int sig)
 {
     char buf[128];
@@ -47,6 +57,7 @@ static Json execute(const Plan &plan, bool verbose)
     c.strict_enomem = plan.cfg.geti("strict_enomem", 0) != 0;
     c.c11 = plan.cfg.geti("c11", 0) != 0;
     c.no_retry = plan.cfg.geti("no_retry", 0) != 0;
+    g_sim.cb_errno_mode = (int)plan.cfg.geti("cb_errno", c.c11 ? (long)(((uint64_t)plan.seed * 7 + (uint64_t)plan.run) % 4) : 0);
     arm_timer(g_hang_seconds);
     eng->run(c, plan);
     arm_timer(0);
@@ -145,7 +156,7 @@ int main(int argc, char **argv)
 		Json o = Json::obj(); o["stats"] = st; o["next"] = k + 1;
 		printf("%s\n", o.str().c_str());
 		fflush(stdout);
-		_exit(99);
+		sim_exit(99);
 	    }
 	}
 	Json st = Json::obj();
@@ -153,7 +164,7 @@ int main(int argc, char **argv)
 	Json o = Json::obj(); o["stats"] = st; o["done"] = true;
 	printf("%s\n", o.str().c_str());
 	fflush(stdout);
-	_exit(0);
+	sim_exit(0);
     }
     if (cmd == "enum" && argc >= 6) {
 	// C12: fail every allocation made by libvna code in a fault-armed call of the script, one at a time
@@ -177,7 +188,7 @@ int main(int argc, char **argv)
 	    line["faultfree"] = true;
 	    printf("%s\n", line.str().c_str());
 	    fflush(stdout);
-	    _exit(99);
+	    sim_exit(99);
 	}
 	std::string hA = base.gets("h");
 	std::vector<long> ma;
@@ -218,7 +229,7 @@ int main(int argc, char **argv)
 		Json o = Json::obj(); o["stats"] = st; o["enum_next_j"] = (long)j; o["enum_next_k"] = k + 1; o["enum_done"] = done; o["enum_nt"] = nontrivial; o["enum_K"] = K;
 		printf("%s\n", o.str().c_str());
 		fflush(stdout);
-		_exit(99);
+		sim_exit(99);
 	    }
 	}
 	Json st = Json::obj();
@@ -228,7 +239,7 @@ int main(int argc, char **argv)
 	if (run % 5 == 0) o["sample"] = plan.to_json();
 	printf("%s\n", o.str().c_str());
 	fflush(stdout);
-	_exit(0);
+	sim_exit(0);
     }
     if (cmd == "gen" && argc >= 6) {
 	std::string check = argv[2], tier = argv[3];
@@ -261,7 +272,7 @@ int main(int argc, char **argv)
 	    printf("%s\n", line.str().c_str());
 	} else printf("%s\n", res.str().c_str());
 	fflush(stdout);
-	_exit(0);
+	sim_exit(0);
     }
     fprintf(stderr, "bad arguments\n");
     return 2;
